@@ -27,6 +27,7 @@ RULE = ("table = packed structured dtype of 1-8 fields (i1..u8, f4, f8, bool, c8
         "or a header with nesting / quote / newline / END, or a field name or key containing END/SIZE, or "
         ">4096 bytes of rows. Distinct = distinct case JSON."
         " Tables (shared generator): byte order per table or independently per field; one table in thirty has a wide field (string of 255..70001 bytes or a sub-array of 1100..9000 numbers), one binary table in forty a total size next to 4 KiB..3 MiB; user headers may carry reserved underscore names in any case (they need not survive, the table must).")
+RULE += (" " + 'Also: the table handed over as a 2-/3-d array of records in C or Fortran memory order (its C-order records are the rows read back); one header in five carries user keys that contain a reserved name (col_delim, OUT_DTYPE, pix_size), which must survive.')
 ASSUMPTIONS = [
     "arrays with at least one row, 1-d or (layout 2d) 2-/3-d arrays of records whose C-order sequence of records is "
     "the table that reading returns; packed dtypes (no padding/offsets); header keys are str",
